@@ -18,7 +18,7 @@ META = {
                   "argument list with a parse tree or a syntax error whose index lies inside the form "
                   "(C10_pattern_macro_outcome), operator macros accept exactly their arity range (C10_flat_arity); over the "
                   "modelled expression heads every tree compiles to an AST the structural validator accepts or to a "
-                  "user-facing error, given no odd dict / unpaired chainc etc. (C10_compile_outcome_classes_partial), and "
+                  "user-facing error, given no mis-aligned dict unpacking / bare unpack-mapping / unpaired chainc (C10_compile_outcome_classes_partial), and "
                   "the faithful model is refuted on those shapes (C10_refuted_*: concrete witnesses, replayed on the real "
                   "compiler = recorded findings). Each run compares the combinator model with the live funcparserlib "
                   "parsers (acceptance, tree shape, error index) and classifies tens of thousands of random model trees "
@@ -44,19 +44,12 @@ TRUSTED = [
 # ------------------------------------------------------------------ known defect classes of the unchanged tree
 # (id, regex on the failure key `stage:ExceptionClass:normalised message`, structural feature the shrunk input must have, text)
 FINDINGS = [
-    ("C10-odd-dict", r"^compile:ValueError:Dict doesn't have the same number of keys as values$", "odd_dict",
-     "a dict literal with an odd number of forms, e.g. {1}, compiles to ast.Dict with unequal keys/values (compile_dict slices "
-     "keyvalues[::2]/[1::2]); compile() raises ValueError"),
     ("C10-dict-unpack-in-value-position", r"^compile:ValueError:None disallowed in expression list$", "dict_unpack_misaligned",
      "{x #** y z}: a #** form at an odd position of a dict literal puts the None marker into `values`; compile() raises ValueError"),
     ("C10-augassign-sequence-target", r"^compile:SystemError:invalid node type \(N\) for augmented assignment$", "aug_bad_target",
      "(+= [] x), (//= #* x 7): _storeize accepts a list/tuple/starred target for an augmented assignment; compile() raises SystemError"),
     ("C10-chainc-no-pairs", r"^compile:ValueError:Compare with no comparators$", "chainc_single",
      "(chainc x) compiles to Compare(ops=[], comparators=[]); compile() raises ValueError"),
-    ("C10-compare-unpack-mapping", r"^compile:ValueError:Compare (has a different number of comparators and operands|with no comparators)$",
-     "compare_with_unpack_mapping",
-     "(= x y #** z), (= x #** z): _compile_collect drops the #** form but the operator list is built from all arguments; "
-     "compile() raises ValueError"),
     ("C10-matchor-short", r"^compile:ValueError:MatchOr requires at least N patterns$", "short_or_pattern",
      "(match x (|) y) / (| p): MatchOr with fewer than two alternatives; compile() raises ValueError"),
     ("C10-import-empty-names", r"^compile:ValueError:empty names on ImportFrom$", "import_empty_list",
@@ -75,8 +68,8 @@ FINDINGS = [
     ("C10-falsy-literal-truth-test", r"^compile:TypeError:required field \"lineno\" missing from expr$", "falsy_literal_truth_tested",
      "(assert x 0), (defclass :tp [#^ 0 T] C): `if msg:` / `x[1] and ...` test the truth of the *model*, so a falsy "
      "literal (0, \"\", [], {}) is put into the AST uncompiled; compile() raises TypeError"),
-    ("C10-match-star-wildcard", r"^compile:ValueError:can'_'_' in patterns$", "star_wildcard",
-     "(match x [#* _] y) compiles to MatchStar(name='_') instead of name=None; compile() raises ValueError"),
+    ("C10-match-as-wildcard", r"^compile:ValueError:can'_'_' in patterns$", "as_wildcard",
+     "(match x p :as _ y): `:as _` compiles to MatchAs(name='_'); compile() raises ValueError (the #* _ case was fixed by 24b6ab7)"),
     ("C10-toplevel-nonlocal-list", r"^compile:TypeError:required field \"lineno\" missing from stmt$", "has_nonlocal",
      "(+= c (nonlocal c)): ResolveOuterVars.visit_OuterVar returns a list, which hy_compile places into the module body "
      "when the nonlocal form sits in the top-level statement list; compile() raises TypeError"),
@@ -94,6 +87,32 @@ FINDINGS = [
      "(lfor x y (match x {1 _} 1)): a mapping pattern without #** rest inside a comprehension registers the name None as an "
      "assignment of the generator scope; a Name(id=None) is emitted; compile() raises ValueError"),
 ]
+
+
+FIXED = [
+    ("C10-match-star-wildcard", "24b6ab7", "(match x [#* _] y) compiled to MatchStar(name='_') (ValueError from compile()); now the star wildcard"),
+    ("C10-odd-dict", "bac53a5", "{1}: an odd dict literal compiled to ast.Dict with unequal keys/values (ValueError from compile()); now a HySyntaxError"),
+    ("C10-compare-unpack-mapping", "c0e258f", "(= x y #** z): the #** operand was dropped by _compile_collect while the operator "
+     "list was built from all arguments (ValueError from compile()); now a HySyntaxError"),
+]
+
+
+def corpus_first(chk, hy):
+    """minimised past failures (corpus/C10/cases.json): each must now be accepted or end in a user-facing error"""
+    import json
+    import os
+    path = os.path.join(vlib.VERIF, "corpus", "C10", "cases.json")
+    if not os.path.exists(path):
+        return
+    for c in json.load(open(path)):
+        tree = hy.read_many(c["source"])
+        res = valid_oracle.classify(hy, tree)
+        chk.count("corpus:" + res[0])
+        chk.case(("corpus", c["source"]), nontrivial=True)
+        if res[0] == "violation":
+            chk.fail("corpus-regression:" + valid_oracle.key_of(res), {"tree": c["source"], "note": c["note"], "features": {}},
+                     "%s at %s: %s" % (res[2], res[1], res[3][-200:]), "accepted, or a HyLanguageError/SyntaxError",
+                     "compile(hy_compile(hy.read_many(%r), module), '<s>', 'exec')" % c["source"])
 
 
 def c10_class_matcher(rec, params):
@@ -219,4 +238,22 @@ def run(chk):
             pass
         except Exception as e:
             chk.obligation("handler correspondence ran", False, str(e)[-1500:])
+    corpus_first(chk, hy)
     run_oracle(chk, 900000 if thorough else 36000, 8 if thorough else 6)
+
+
+def replay(path):
+    """re-run the oracle on the input of a replay file; exit status 1 if it still violates the property"""
+    import json
+    hy = vlib.use_repo_in_process()
+    import hy.compiler  # noqa
+    d = json.load(open(path))
+    if d.get("kind") != "failing-input":
+        print(json.dumps(d, indent=1)[:3000])
+        return 1
+    inp = d["input"]
+    tree = eval(inp["python"], {"hy": hy}) if inp.get("python") else hy.read_many(inp["tree"])
+    res = valid_oracle.classify(hy, tree)
+    print("input:", inp.get("tree"))
+    print("outcome:", res)
+    return 1 if res[0] == "violation" else 0
